@@ -455,7 +455,11 @@ def splice_contract(chunk_text, contract, fn_label):
                 m += 1
             llines = []
             if lp.get('iter_name'):
-                pass
+                # `for x in EXPR` -> `for x in NAME: EXPR` (names the ghost iterator so that invariants can mention it)
+                q = li + 1
+                while not (toks[q].kind == 'ident' and toks[q].text == 'in'):
+                    q += 1
+                edits.append((toks[q].end, toks[q].end, ' %s:' % lp['iter_name']))
             inv = parse_clauses(lp.get('invariant', ''))
             if inv:
                 llines.append(('        invariant', None))
